@@ -63,6 +63,28 @@ struct Child {
     told: Told,
 }
 
+fn permutations(n: usize) -> Vec<Vec<usize>> {
+    // identity first, so that the default choice 0 is the ascending-id order
+    fn rec(cur: &mut Vec<usize>, used: &mut Vec<bool>, n: usize, out: &mut Vec<Vec<usize>>) {
+        if cur.len() == n {
+            out.push(cur.clone());
+            return;
+        }
+        for i in 0..n {
+            if !used[i] {
+                used[i] = true;
+                cur.push(i);
+                rec(cur, used, n, out);
+                cur.pop();
+                used[i] = false;
+            }
+        }
+    }
+    let mut out = Vec::new();
+    rec(&mut Vec::new(), &mut vec![false; n], n, &mut out);
+    out
+}
+
 #[derive(Clone, Debug, PartialEq, Eq, Hash, PartialOrd, Ord)]
 enum Action {
     LaunchFg(usize),
@@ -384,6 +406,31 @@ impl World {
         }));
         let i2 = inner.clone();
         vh::install_fake_waitpid(Some(Box::new(move |pid, block| i2.borrow_mut().waitpid(pid, block))));
+        // The shell keeps its jobs in a hash map and `try_wait_bg_jobs` visits them in the map's arbitrary order:
+        // the explorer owns that order. Only jobs that have a parked event waiting can make the order observable;
+        // if two or more of them do, every permutation of those jobs is a choice.
+        let i3 = inner.clone();
+        vh::install_job_order(Some(Box::new(move |jobs: &mut Vec<(i32, vh::Job)>| {
+            jobs.sort_by_key(|j| j.0);
+            let (reap, stopped, cont, killed) = vh::maps_snapshot();
+            let parked: HashSet<i32> = reap.iter().map(|x| x.0).chain(stopped.iter().copied()).chain(cont.iter().copied()).chain(killed.iter().map(|x| x.0)).collect();
+            let hot: Vec<usize> = (0..jobs.len()).filter(|i| jobs[*i].1.pids.iter().any(|p| parked.contains(p))).collect();
+            if hot.len() < 2 {
+                return;
+            }
+            let perms = permutations(hot.len());
+            let k = {
+                let mut inner = i3.borrow_mut();
+                let k = inner.choose(perms.len());
+                // (part of the pruning key: executions that differ in this choice are different executions)
+                inner.delivered_log.push(format!("job-order-{}", k));
+                k
+            };
+            let picked: Vec<(i32, vh::Job)> = perms[k].iter().map(|i| jobs[hot[*i]].clone()).collect();
+            for (slot, job) in hot.iter().zip(picked.into_iter()) {
+                jobs[*slot] = job;
+            }
+        })));
         let mut sh = vh::Shell::new();
         sh.has_terminal = false;
         World { sh, inner, launches: 0, procs_launched: 0, max_procs: 6, handler_enabled }
@@ -1157,6 +1204,7 @@ fn conf_real(k: usize, script: &[(usize, Ev, bool)]) -> Result<Obs, String> {
         .collect();
     table.sort();
     vh::install_fake_waitpid(None);
+    vh::install_job_order(None);
     for p in &pids {
         unsafe {
             libc::kill(*p, libc::SIGKILL);
@@ -1302,6 +1350,7 @@ pub fn run(ctx: &Ctx) -> Value {
         }
     }
     vh::install_fake_waitpid(None);
+    vh::install_job_order(None);
     let violations: Vec<Value> = viol.iter().map(|(sig, (n, w))| json!({"sig": sig, "count": n, "witnesses": w})).collect();
     let mut merr: Vec<String> = Vec::new();
     if parked == 0 {
